@@ -165,6 +165,62 @@ def gen_rich_history(rng, uid):
     return hist
 
 
+# ---------------------------------------------------------------- reopening grid
+
+# (member added by the rejected input, an input using it, an input declaring it again differently)
+CLASS_MEMBERS = {
+    "ivar": ("var @iv: Int?", "class {K}; def riv: Int? then @iv; end", "class {K}; var @iv: String?; end"),
+    "attr": ("attr at: Int?", "println(({K}().at == nil).inspect)", "class {K}; attr at: String?; end"),
+    "getter": ("getter gt: Int?", "println(({K}().gt == nil).inspect)", "class {K}; getter gt: String?; end"),
+    "def": ("def extra: Int; 5; end", "println({K}().extra)", "class {K}; def extra: String; \"s\"; end; end"),
+    "const": ("const KC = 3", "println({K}::KC)", "class {K}; const KC = \"s\"; end"),
+    "nested": ("class Inner; end", "inner := {K}::Inner(); println(7)", "class {K}; class Inner; def q: Int; 1; end; end; end"),
+}
+MODULE_MEMBERS = {
+    "def": ("def g2: Int; 2; end", "println({K}.g2)", "module {K}; def g2: String; \"s\"; end; end"),
+    "const": ("const MC = 4", "println({K}::MC)", "module {K}; const MC = \"s\"; end"),
+    "nested": ("class Inner; end", "inner := {K}::Inner(); println(7)", "module {K}; class Inner; def q: Int; 1; end; end; end"),
+}
+MIXIN_MEMBERS = {
+    "def": ("def h: Int; 6; end", "println(KX{U}().h)", "mixin {K}; def h: String; \"s\"; end; end"),
+    "ivar": ("var @miv: Int?", "mixin {K}; def rmiv: Int? then @miv; end", "mixin {K}; var @miv: String?; end"),
+}
+
+
+def gen_reopen_histories(rng, uid, full):
+    """define a container in an accepted input; a REJECTED input reopens it, adds a member and then fails; later inputs
+    use the member (batch: rejected) and declare it again with another type (batch: accepted). Quick: a fixed part of the
+    grid (every member kind of a class) + a random part; thorough: the whole grid, both failure placements."""
+    grid = []
+    for kind, members, define in (
+            ("class", CLASS_MEMBERS, "class {K}; def m: Int; 1; end; end"),
+            ("module", MODULE_MEMBERS, "module {K}; def f: Int; 1; end; end"),
+            ("mixin", MIXIN_MEMBERS, "mixin {K}; def g: Int; 4; end; end; class KX{U}; include {K}; end")):
+        for mk in members:
+            for fail in ("after", "inside"):
+                grid.append((kind, members, define, mk, fail))
+    fixed = [g for g in grid if g[0] == "class" and g[4] == "after"]
+    rest = [g for g in grid if g not in fixed]
+    chosen = grid if full else fixed + rng.sample(rest, 3)
+    out = []
+    for n, (kind, members, define, mk, fail) in enumerate(chosen):
+        U = f"{uid}r{n}"
+        K = {"class": "RK", "module": "RM", "mixin": "RX"}[kind] + U
+        f = lambda t: t.replace("{K}", K).replace("{U}", U)
+        member, use, redecl = members[mk]
+        if fail == "after":
+            bad = f"{kind} {K}; {member}; end; 1 + nil"
+        else:
+            bad = f"{kind} {K}; {member}; def broken{n}: Int; \"s\"; end; end"
+        alive = {"class": f"println({K}().m)", "module": f"println({K}.f)", "mixin": f"println(KX{U}().g)"}[kind]
+        h = [f(define), bad, f(use)]
+        if rng.random() < 0.5 or full:
+            h.append(f(redecl))
+        h.append(alive)
+        out.append(h)
+    return out
+
+
 # ---------------------------------------------------------------- execution
 
 def run_sessions(reqs, workers=4, timeout=900, sub="repl"):
@@ -408,7 +464,9 @@ def model_line(h):
 def run(ctx):
     ctx.rule = ("REPL histories of 3-8 inputs: (a) over the mini machine's items (constants, methods, locals, uses, ill-typed items; "
                 "also compared with the Lean session model), (b) rich Elk inputs (modules, classes, structs, mixins, closures, "
-                "redefinitions, invalid inputs that fail after introducing definitions, runtime errors); distinct = distinct "
+                "redefinitions, invalid inputs that fail after introducing definitions, runtime errors), (c) a grid of rejected inputs that "
+                "REOPEN a class/module/mixin defined earlier and add an instance variable/attr/getter/method/constant/nested class "
+                "before failing, followed by uses and redeclarations; distinct = distinct "
                 "history; non-trivial = contains a rejected input followed by another input")
     ctx.prove("ElkVerif.Props.C27")
     if ctx.replay:
@@ -417,9 +475,11 @@ def run(ctx):
     else:
         nm, nr = ctx.n(8, 80), ctx.n(10, 160)
         model_hs = [gen_model_history(ctx.rng) for _ in range(nm)]
-        hs = corpus_histories() + [["\n".join(render_item(it, f"{ctx.seed}q{k}") for it in items) for items in h] for k, h in enumerate(model_hs)] \
-            + [gen_rich_history(ctx.rng, f"{ctx.seed}h{i}") for i in range(nr)]
-    nc = len(hs) - len(model_hs) - (0 if ctx.replay else ctx.n(10, 160))
+        corpus = corpus_histories()
+        hs = corpus + [["\n".join(render_item(it, f"{ctx.seed}q{k}") for it in items) for items in h] for k, h in enumerate(model_hs)] \
+            + [gen_rich_history(ctx.rng, f"{ctx.seed}h{i}") for i in range(nr)] \
+            + gen_reopen_histories(ctx.rng, f"{ctx.seed}", not ctx.quick)
+    nc = 0 if ctx.replay else len(corpus)
     ok_batch, ok_model, reported = True, True, 0
     model_ans = vlib.run_model([model_line(h) for h in model_hs]) if model_hs else []
     B = 24
